@@ -466,7 +466,15 @@ func (t *sseClientTransport) sendResponseMessage(response interface{}) {
 		return
 	}
 
-	ctx, cancel := context.WithTimeout(context.Background(), 30*time.Second)
+	// Answers to server-issued requests are background traffic of the event stream: reuse the
+	// context values retained from the handshake (not its cancellation), as the connect request does.
+	t.sseConn.mutex.Lock()
+	baseCtx := t.sseConn.ctx
+	t.sseConn.mutex.Unlock()
+	if baseCtx == nil {
+		baseCtx = context.Background()
+	}
+	ctx, cancel := context.WithTimeout(icontext.WithoutCancel(baseCtx), 30*time.Second)
 	defer cancel()
 
 	httpReq, err := http.NewRequestWithContext(ctx, http.MethodPost, t.endpoint.String(), bytes.NewReader(respBytes))
@@ -483,6 +491,16 @@ func (t *sseClientTransport) sendResponseMessage(response interface{}) {
 	for key, values := range t.httpHeaders {
 		for _, value := range values {
 			httpReq.Header.Add(key, value)
+		}
+	}
+
+	// Call HTTP before-request function, if configured.
+	if t.client != nil {
+		if err := t.client.applyHTTPBeforeRequest(ctx, httpReq); err != nil {
+			if t.logger != nil {
+				t.logger.Errorf("HTTP before-request failed, response not sent: %v", err)
+			}
+			return
 		}
 	}
 
